@@ -63,6 +63,10 @@ func preTraversalVisitValuesInstruction(instruction ssa.Instruction, seen map[ss
 	case *ssa.Defer:
 		visit(x.Call.Value)
 
+		for i := range x.Call.Args {
+			visit(x.Call.Args[i])
+		}
+
 	case *ssa.Extract:
 		visit(x.Tuple)
 
@@ -74,6 +78,10 @@ func preTraversalVisitValuesInstruction(instruction ssa.Instruction, seen map[ss
 
 	case *ssa.Go:
 		visit(x.Call.Value)
+
+		for i := range x.Call.Args {
+			visit(x.Call.Args[i])
+		}
 
 	case *ssa.If:
 		visit(x.Cond)
